@@ -31,6 +31,9 @@ import (
 	mh "github.com/multiformats/go-multihash"
 
 	"github.com/ipfs/go-libdht/kad/key"
+	"github.com/ipfs/go-libdht/kad/key/bit256"
+	"github.com/ipfs/go-libdht/kad/key/bitstr"
+	"github.com/ipfs/go-libdht/kad/trie"
 
 	pb "github.com/libp2p/go-libp2p-kad-dht/pb"
 	"github.com/libp2p/go-libp2p-kad-dht/provider/internal/keyspace"
@@ -64,6 +67,7 @@ func c17Top32(b []byte) uint32 {
 
 // ---- the environment ------------------------------------------------------------------------
 type c17Ev struct {
+	Epoch int     `json:"-"` // index of the swarm in force
 	T    int64    `json:"t"` // virtual microseconds
 	Kind string   `json:"ev"`
 	Keys []uint32 `json:"keys,omitempty"`
@@ -86,6 +90,7 @@ type c17Env struct {
 	routerL time.Duration
 	sendL   time.Duration
 	inFlight int
+	swarms  [][]peer.ID // every swarm that was in force, in order
 	unknown int // sends whose key or peer the harness does not know
 	nSent   int
 	nRouter int
@@ -95,6 +100,7 @@ func (e *c17Env) now() int64 { return int64(time.Since(e.start) / time.Microseco
 
 func (e *c17Env) log(ev c17Ev) {
 	ev.T = e.now()
+	ev.Epoch = len(e.swarms) - 1
 	e.events = append(e.events, ev)
 }
 
@@ -375,6 +381,7 @@ func c17Gen(r *vfRand, size int) c17Case {
 }
 
 type c17Result struct {
+	swarms  [][]peer.ID
 	events  []c17Ev
 	endUs   int64
 	fail    string
@@ -463,12 +470,13 @@ func c17Run(t *testing.T, r *vfRand, c c17Case, keys []mh.Multihash, peers []pee
 			switch st.Act {
 			case "swarm":
 				env.mu.Lock()
-				env.swarm = env.swarm[:0]
+				env.swarm = nil
 				ids := make([]uint32, len(st.Peers))
 				for i, p := range st.Peers {
 					env.swarm = append(env.swarm, peers[p])
 					ids[i] = env.peerID[peers[p]]
 				}
+				env.swarms = append(env.swarms, env.swarm)
 				env.log(c17Ev{Kind: "swarm", Keys: ids})
 				env.mu.Unlock()
 			case "net":
@@ -542,6 +550,7 @@ func c17Run(t *testing.T, r *vfRand, c c17Case, keys []mh.Multihash, peers []pee
 	})
 	env.mu.Lock()
 	res.events = env.events
+	res.swarms = env.swarms
 	res.nSent, res.nRouter, res.unknown = env.nSent, env.nRouter, env.unknown
 	env.mu.Unlock()
 	return res
@@ -555,6 +564,91 @@ func c17DumpSchedule(env *c17Env, prov *SweepingProvider, what string) {
 		it = append(it, fmt.Sprintf("%s@%.1f", string(e.Key), e.Data.Seconds()))
 	}
 	fmt.Printf("  [%d us] %s: schedule %v cursor %q order %s\n", env.now(), what, it, string(prov.scheduleCursor), key.BitString(prov.order)[:6])
+}
+
+// c17Diagnose looks, on the Go side, at every (key, instant) advertisement: how many went
+// to a peer set other than the key's r nearest peers of the swarm in force, and how many
+// of those are exactly what AllocateToKClosest returns when it is handed the key trie
+// rooted at the keyspace root together with the peers SUBTRIE below some prefix of the
+// key (the depth mismatch of keyspace.extractMinimalRegions / provideRegions).
+func c17Diagnose(res c17Result, c c17Case, keys []mh.Multihash, peers []peer.ID) (misrouted, explained int) {
+	keyOf := map[uint32]mh.Multihash{}
+	for _, h := range keys {
+		keyOf[c17Top32(h)] = h
+	}
+	peerOf := map[uint32]peer.ID{}
+	for _, p := range peers {
+		peerOf[c17Top32([]byte(p))] = p
+	}
+	type gk struct {
+		t     int64
+		k     uint32
+		epoch int
+	}
+	groups := map[gk]map[peer.ID]bool{}
+	var order []gk
+	for _, e := range res.events {
+		if e.Kind != "sent" {
+			continue
+		}
+		g := gk{e.T, e.Key, e.Epoch}
+		if groups[g] == nil {
+			groups[g] = map[peer.ID]bool{}
+			order = append(order, g)
+		}
+		groups[g][peerOf[e.Keys[0]]] = true
+	}
+	same := func(a map[peer.ID]bool, b []peer.ID) bool {
+		if len(a) != len(b) {
+			return false
+		}
+		for _, p := range b {
+			if !a[p] {
+				return false
+			}
+		}
+		return true
+	}
+	for _, g := range order {
+		if g.epoch < 0 {
+			continue
+		}
+		sw := res.swarms[g.epoch]
+		h := keyOf[g.k]
+		got := groups[g]
+		sorted := kb.SortClosestPeers(append([]peer.ID(nil), sw...), kb.ConvertKey(string(h)))
+		want := sorted[:min(c.R, len(sorted))]
+		wantK := sorted[:min(c.K, len(sorted))]
+		if same(got, want) || (len(got) > c.R && same(got, wantK)) {
+			continue
+		}
+		misrouted++
+		// every prefix of the key as region prefix
+		full := trie.New[bit256.Key, peer.ID]()
+		for _, p := range sw {
+			full.Add(keyspace.PeerIDToBit256(p), p)
+		}
+		kk := keyspace.MhToBit256(h)
+		items := trie.New[bit256.Key, mh.Multihash]()
+		items.Add(kk, h)
+		bits := key.BitString(kk)
+		for l := 1; l <= 16; l++ {
+			sub, ok := keyspace.FindSubtrie(full, bitstr.Key(bits[:l]))
+			if !ok || sub.IsEmptyLeaf() {
+				break
+			}
+			alloc := keyspace.AllocateToKClosest(items, sub, c.R)
+			var dst []peer.ID
+			for p := range alloc {
+				dst = append(dst, p)
+			}
+			if same(got, dst) {
+				explained++
+				break
+			}
+		}
+	}
+	return misrouted, explained
 }
 
 // ---- emission -------------------------------------------------------------------------------------
@@ -633,6 +727,8 @@ func TestVerifC17(t *testing.T) {
 		keys, peers := c17Pools(r, c.NKeys, c.NPeers)
 		res := c17Run(t, r, c, keys, peers)
 
+		misrouted, explained := c17Diagnose(res, c, keys, peers)
+		cs.Count("advertisements-not-to-the-r-nearest", misrouted)
 		tr, nev := c17CoqTrace(res.events)
 		params := fmt.Sprintf("{| p_r := %d; p_K := %d; p_D := %d; p_G := %d; p_W := %d; p_end := %d |}",
 			c.R, c.K, (c.IntervalS+c.MaxDelayS)*1000000+c.WindowMs*1000, c.GraceS*1000000, c.WindowMs*1000, res.endUs)
@@ -657,7 +753,8 @@ func TestVerifC17(t *testing.T) {
 		cs.Count("router-calls", res.nRouter)
 		idx := cs.Add(fmt.Sprintf("CTrace %s\n %s %s", params, tr, vfBool(res.fail != "")),
 			map[string]any{"case": i, "seed": seed, "kind": "trace", "config": c, "events": len(res.events),
-				"sent": res.nSent, "end_us": res.endUs, "fail": res.fail, "unknown_sends": res.unknown}, s)
+				"sent": res.nSent, "end_us": res.endUs, "fail": res.fail, "unknown_sends": res.unknown,
+				"misrouted": misrouted, "misrouted_explained_by_alloc_depth": explained}, s)
 		if res.fail != "" {
 			cs.Fail(idx, "panic / hang / error in the sweeping provider", res.fail)
 		}
